@@ -144,3 +144,51 @@ Ltac exders2 Pr Pt :=
   repeat match goal with
   | |- is_derive _ _ _ /\ _ => split; [ first [ rderive Pr | rderive Pt ] | ]
   end.
+
+(* EOS identities between generated fields: split region guards, abstract the density, field *)
+Ltac split_ifs :=
+  repeat match goal with
+  | |- context [Rlt_dec ?a ?b] => destruct (Rlt_dec a b)
+  | H : context [Rlt_dec ?a ?b] |- _ => destruct (Rlt_dec a b)
+  | |- context [Rle_dec ?a ?b] => destruct (Rle_dec a b)
+  | H : context [Rle_dec ?a ?b] |- _ => destruct (Rle_dec a b)
+  end.
+
+Ltac abstract_nz :=
+  repeat match goal with
+  | H : ?d <> 0 |- _ =>
+      lazymatch d with
+      | _ * _ => let D := fresh "D" in set (D := d) in *; clearbody D
+      | _ / _ => let D := fresh "D" in set (D := d) in *; clearbody D
+      end
+  end.
+
+Ltac use_defined :=
+  repeat match goal with
+  | H : _ /\ _ |- _ => destruct H
+  | H : ?P -> _, H2 : ?P |- _ => specialize (H H2)
+  | H : (~ ?P) -> _, H2 : ~ ?P |- _ => specialize (H H2)
+  end.
+
+(* from a*b <> 0 derive a <> 0 and b <> 0 (recursively); from a/b <> 0 derive a <> 0 *)
+Ltac split_nz :=
+  repeat match goal with
+  | H : ?a * ?b <> 0 |- _ =>
+      let Ha := fresh "Hnz" in let Hb := fresh "Hnz" in
+      assert (Ha : a <> 0) by (let E := fresh in intro E; apply H; rewrite E; ring);
+      assert (Hb : b <> 0) by (let E := fresh in intro E; apply H; rewrite E; ring);
+      clear H
+  | H : ?a / ?b <> 0 |- _ =>
+      let Ha := fresh "Hnz" in
+      assert (Ha : a <> 0) by (let E := fresh in intro E; apply H; rewrite E; unfold Rdiv; ring);
+      clear H
+  end.
+
+Ltac eos_solve :=
+  intros; autounfold with epgen in *; split_ifs; use_defined;
+  repeat match goal with |- _ /\ _ => split end;
+  first [ solve [ field; nz ]
+        | solve [ split_nz; field; nz ]
+        | solve [ abstract_nz; field; nz ]
+        | lra
+        | split_nz; field; nz ].
